@@ -47,7 +47,7 @@ func main() {
 	h.shardCases(r.Fork(), f.N(120, 1500))
 	h.bigShardCases(r.Fork(), f.N(8, 60))
 	h.builderCases(r.Fork(), f.N(6, 60))
-	h.compoundCases(r.Fork(), f.N(5, 60))
+	h.compoundCases(r.Fork(), f.N(8, 60))
 }
 
 type harness struct {
